@@ -45,6 +45,8 @@ class Client:
         self.abort_at: int | None = None
         self.abort_exc: BaseException | None = None
         self.abort_fired_at: str | None = None
+        self.abort_in: str | None = None
+        self.abort_hits = 0
         self.in_op = False
         self.log: list[list[str]] = []  # log records emitted by this client during current op
         self.error: BaseException | None = None
@@ -188,7 +190,20 @@ class Scheduler:
             raise StepCap(f"step cap {self.step_cap} exceeded")
         if cur.in_op and not boundary:
             cur.op_step += 1
-            if cur.abort_at is not None and cur.op_step >= cur.abort_at:
+            if cur.abort_in is not None and cur.abort_at is not None and frame is not None:
+                # targeted crash point: the k-th pre-emption point inside frames whose qualified
+                # name contains the given text (places faults inside in-flight state)
+                code = frame[0] if isinstance(frame, tuple) else frame.f_code
+                if cur.abort_in in code.co_qualname:
+                    cur.abort_hits += 1
+                    if cur.abort_hits >= cur.abort_at:
+                        cur.abort_at = None
+                        exc = cur.abort_exc
+                        cur.abort_fired_at = self._location(frame)
+                        self.record("abort", cur.idx, cur.op_index, cur.op_step, cur.abort_fired_at)
+                        assert exc is not None
+                        raise exc
+            elif cur.abort_at is not None and cur.op_step >= cur.abort_at:
                 cur.abort_at = None
                 exc = cur.abort_exc
                 cur.abort_fired_at = self._location(frame)
@@ -409,11 +424,14 @@ class Scheduler:
         client.op_step = 0
         client.log = []
         client.abort_fired_at = None
+        client.abort_hits = 0
         if abort is not None:
             client.abort_at = int(abort["at"])
+            client.abort_in = abort.get("in")
             client.abort_exc = make_abort_exc(abort["exc"])
         else:
             client.abort_at = None
+            client.abort_in = None
             client.abort_exc = None
         self.interleaving.update(f"b{client.idx}.{op_index};".encode())
         client.in_op = True
